@@ -567,12 +567,27 @@ func runLocalRoundOnce(c *Ctx, round int, g c12Cfg, reqs []c12Req, ovrs []*c12Ov
 		var queued int
 		deadline := time.Now().Add(c12Wait)
 		ok := false
+		deadlocked := 0
 		for {
 			running, done, failed, queued = observe()
 			transit := len(jobs) - len(running) - len(done) - len(failed) - queued
 			if transit == 0 && (len(running) > 0 || len(done)+len(failed) == len(jobs)) {
 				ok = true
 				break
+			}
+			// a deadlock needs no waiting: nothing runs, nobody is in transit, every job that is
+			// not over is blocked in ResourceSemaphore.Acquire (goroutine dump: every goroutine
+			// that is inside Enqueue is in `chan receive` there) — nobody is left to release
+			if transit == 0 && len(running) == 0 && queued > 0 && queued == len(jobs)-len(done)-len(failed) {
+				if tot, pk := c12rEnqueueGoroutines(); tot == pk && pk >= queued {
+					if deadlocked++; deadlocked >= 3 {
+						break
+					}
+				} else {
+					deadlocked = 0
+				}
+			} else {
+				deadlocked = 0
 			}
 			if time.Now().After(deadline) {
 				break
